@@ -19,7 +19,7 @@ theorem suggest_KInv (s s' : Sched) (newTid bracket : Nat) (hint : Option Nat) (
   | ok res =>
     obtain ⟨g, so, ms, fr0⟩ := res
     simp only [hts] at h
-    obtain ⟨t1, t2, t3, t4⟩ := taskSchedule_plain s.mgr g bracket hint so ms fr0 hinv.plain hts
+    obtain ⟨t1, t2, t3, t4⟩ := taskSchedule_plain s.mgr g bracket hint so ms fr0 hinv.pr hts
     cases so with
     | none =>
       simp only at h t4
@@ -41,7 +41,7 @@ theorem suggest_KInv (s s' : Sched) (newTid bracket : Nat) (hint : Option Nat) (
           obtain ⟨h1, h2, _, _⟩ := h
           subst h1
           obtain ⟨a1, a2, a3⟩ := taskAdd_fields g g2 newTid bracket none first hta
-          refine ⟨⟨by simp only [a1, t1]; exact hinv.plain, ?_, by simp only [a2, t4]; exact hinv.nodup,
+          refine ⟨⟨by simp only [a1, t1]; exact hinv.pr, ?_, by simp only [a2, t4]; exact hinv.nodup,
             a3 (t3 hinv.runok)⟩, ?_, ?_⟩
           · intro t ht
             simp only [a2, t4] at ht
@@ -68,7 +68,7 @@ theorem suggest_KInv (s s' : Sched) (newTid bracket : Nat) (hint : Option Nat) (
         obtain ⟨a1, a2, a3⟩ := taskAdd_fields g g2 o.trial bracket _ first hta
         have hnd : (o.trial :: unpromotedSys g.systems).Nodup := (t4.nodup_iff).mp hinv.nodup
         rw [List.nodup_cons] at hnd
-        refine ⟨⟨by simp only [a1, t1]; exact hinv.plain, ?_, by simp only [a2]; exact hnd.2,
+        refine ⟨⟨by simp only [a1, t1]; exact hinv.pr, ?_, by simp only [a2]; exact hnd.2,
           a3 (t3 hinv.runok)⟩, ?_, ?_⟩
         · intro t ht
           simp only [a2] at ht
